@@ -147,6 +147,9 @@ type syWalk struct {
 	once  string
 	nclo  int
 	base  string // key prefix for closures
+	// chanAlias: local variable -> the field chain (root, path) it was assigned from (`ch := s.DoneCh`): closing the
+	// local closes that field's channel, under whatever locks are held at the close
+	chanAlias map[string][2]interface{}
 }
 
 func typeName(e ast.Expr) (name string, ptr bool) {
@@ -541,6 +544,16 @@ func (w *syWalk) call(x *ast.CallExpr, st *syState, deferred bool) {
 		switch id.Name {
 		case "close":
 			if len(x.Args) == 1 {
+				if aid, isId := x.Args[0].(*ast.Ident); isId {
+					if al, has := w.chanAlias[aid.Name]; has {
+						root, path := al[0].(string), al[1].([]string)
+						if typ, _, tr := w.access(root, path, 'r', false, *st); tr {
+							r := w.c.resolve(typ, path)
+							w.c.closes = append(w.c.closes, &syClose{unit: w.unit, ch: lockName(typ, r), once: w.once, locks: st.effective()})
+							return
+						}
+					}
+				}
 				if root, path, ok := chainOf(x.Args[0]); ok && len(path) > 0 {
 					if typ, _, tr := w.access(root, path, 'r', false, *st); tr {
 						r := w.c.resolve(typ, path)
@@ -845,6 +858,16 @@ func (w *syWalk) stmt(s ast.Stmt, st *syState) bool {
 		for i, l := range x.Lhs {
 			if id, ok := l.(*ast.Ident); ok {
 				if len(x.Rhs) == len(x.Lhs) {
+					if root, path, okc := chainOf(x.Rhs[i]); okc && len(path) > 0 {
+						if _, tr := w.env[root]; tr {
+							if w.chanAlias == nil {
+								w.chanAlias = map[string][2]interface{}{}
+							}
+							w.chanAlias[id.Name] = [2]interface{}{root, append([]string(nil), path...)}
+						}
+					} else {
+						delete(w.chanAlias, id.Name)
+					}
 					w.bind(id.Name, x.Rhs[i])
 				} else if i == 0 && len(x.Rhs) == 1 {
 					w.bind(id.Name, x.Rhs[0])
